@@ -1045,7 +1045,7 @@ class Ev:
             else:
                 spec = None
                 if v.format_spec is not None:
-                    spec = self.ev(v.format_spec)
+                    spec = self._fold_spec(v.format_spec)
                 val = self.ev(v.value)
                 va = val.as_atom()
                 if spec is None and v.conversion == -1 and va and va[0] == "str":
@@ -1056,6 +1056,22 @@ class Ev:
         if all(p[0] == "lit" for p in parts):
             return P.atom(("str", "".join(p[1] for p in parts)))
         return P.atom(("fstr", tuple(parts)))
+
+    def _fold_spec(self, spec_node):
+        """A format spec with nested fields that are module-level integer / string constants (f"{x:>{WIDTH}}") is the literal spec."""
+        if isinstance(spec_node, ast.JoinedStr) and any(isinstance(v, ast.FormattedValue) for v in spec_node.values):
+            out = []
+            for v in spec_node.values:
+                if isinstance(v, ast.Constant):
+                    out.append(str(v.value))
+                elif isinstance(v, ast.FormattedValue) and isinstance(v.value, ast.Name) and v.conversion == -1 and v.format_spec is None \
+                        and v.value.id not in self.env and isinstance(self.mod.consts.get(v.value.id), ast.Constant) \
+                        and type(self.mod.consts[v.value.id].value) in (int, str):
+                    out.append(str(self.mod.consts[v.value.id].value))
+                else:
+                    return self.ev(spec_node)
+            return P.atom(("str", "".join(out)))
+        return self.ev(spec_node)
 
     def e_FormattedValue(self, n):
         return P.atom(("fmt", self.ev(n.value), n.conversion, self.ev(n.format_spec) if n.format_spec else None))
